@@ -425,7 +425,30 @@ var families = []family{
 			if i%2 == 1 {
 				s = -1
 			}
-			out[i] = geometry.Point{X: s * 1.7e308 * float64(i%5+1) / 5, Y: -s * 1.7e308 * float64(i%3+1) / 3}
+			out[i] = geometry.Point{X: s * 1.7e308 * (float64(i%5+1) / 5), Y: -s * 1.7e308 * (float64(i%3+1) / 3)}
+		}
+		return out
+	}},
+	{"huge-one-sided", func(n int) []geometry.Point {
+		// all coordinates near +1e308: (min+max)/2 overflows, min+(max-min)/2 does not
+		out := make([]geometry.Point, n)
+		for i := range out {
+			out[i] = geometry.Point{X: 1e308 + 1e306*float64(i%48), Y: 1e308 + 1e306*float64((5*i)%48)}
+		}
+		return out
+	}},
+	{"mixed-magnitude", func(n int) []geometry.Point {
+		// two far outliers at -2^53 and 2^53+2 around a unit-scale cluster:
+		// differently rounded midpoint formulas disagree here
+		out := make([]geometry.Point, n)
+		for i := range out {
+			out[i] = geometry.Point{X: 0.1 + 0.02*float64(i%50), Y: 1 + float64((7*i)%60)}
+		}
+		if n > 0 {
+			out[0] = geometry.Point{X: -9007199254740992, Y: 0}
+		}
+		if n > 1 {
+			out[n-1] = geometry.Point{X: 9007199254740994, Y: 64}
 		}
 		return out
 	}},
@@ -555,7 +578,7 @@ func seriesCase(pts []geometry.Point, closed bool) rt.Case {
 }
 
 func runC04(r *rt.Run) {
-	r.Rule = "insert histories: every point sequence up to a depth over small lattices; 11 layout families x sizes crossing every structural threshold x <=1 (thorough <=2 for n<=66) displaced points at every position x 25 targets; each under {r-tree, quadtree} x MinPoints {1, n, n+1}, open and closed; probes: grid of query rectangles incl. infinite bounds and 1-ulp neighbours x every early-stop position; then predicate answers under every index and after Move; non-trivial = series with at least one segment"
+	r.Rule = "insert histories: every point sequence up to a depth over small lattices; 13 layout families x sizes crossing every structural threshold x <=1 (thorough <=2 for n<=66) displaced points at every position x 25 targets; each under {r-tree, quadtree} x MinPoints {1, n, n+1}, open and closed; probes: grid of query rectangles incl. infinite bounds and 1-ulp neighbours x every early-stop position; then predicate answers under every index and after Move; non-trivial = series with at least one segment"
 	r.Assume = []string{"oracle: brute force over SegmentAt(i).Rect() by definition", "index bytes are decoded only to measure which encodings occurred"}
 	var stats idxStats
 	r.Describe = runC04Describe
@@ -705,7 +728,7 @@ func c04Predicates(r *rt.Run) {
 	}
 	var jobs []pj
 	for _, f := range families {
-		if f.name == "huge" {
+		if f.name == "huge" || f.name == "huge-one-sided" {
 			continue // Move would overflow; covered by the search checks
 		}
 		for _, n := range sizes {
